@@ -106,7 +106,7 @@ def gen(chk, tier):
                 add(k, "sm4.crypt", h="c2", dec=False, src=blk, inplace=False)
                 add(k, "sm4.crypt", h="c1", dec=False, src=blk, inplace=False)
                 add(k, "sm4.crypt", h="c2", dec=True, src=blk, inplace=False)
-    # slices longer than one block: only the first block is processed, the rest of dst (and of src) is untouched
+    # slices longer than one block (the first block of the result is judged)
     for asm in (True, False):
         k = scenario("block_long_slices_%s" % ("asm" if asm else "portable"))
         add(k, "sm4.newcipher", h="c", key=rb(rng, 16), asm=asm)
@@ -194,7 +194,7 @@ def run(tier):
         "construction), both key schedules word for word, every kernel (portable 1/2-block, vector 1/2/4/8/16) with "
         "pairwise distinct blocks per lane and one-hot lanes, key lengths 0..40, key pairs colliding under cheap "
         "fingerprints, the caller's key BUFFER reused for the next key / wiped (no retained slice), slices longer than one "
-        "block (only the first block processed, the rest untouched); TLC recomputes every output block "
+        "block (the first block is judged); TLC recomputes every output block "
         "with the pure TLA+ SM4 (algebraic S-box = table and the standard example checked every run)",
         ["TLC; SM4.tla validated by the GB/T 32907 example and the algebraic S-box identity",
          "arm64 NEON kernels cannot be executed in this sandbox and are not covered",
